@@ -187,7 +187,7 @@ def run_property(prop, cfg, tier, seed, log):
     for v in variants:
         for s in range(v["shards"]):
             jobs.append((v, s))
-    timeout = cfg.get("timeout", {}).get(tier, 1800 if tier == "quick" else 10800)
+    timeout = cfg.get("timeout", {}).get(tier, 900 if tier == "quick" else 10800)
     with cf.ThreadPoolExecutor(max_workers=cfg.get("parallel", 16)) as ex:
         futs = {}
         for v, s in jobs:
